@@ -128,10 +128,11 @@ theorem commitOne_size (s : LState) (n : Nat) : (commitOne Hc s n).size = s.size
   unfold commitOne; rw [register_size, setContentId_size, reparent_size]
 
 /-- attaching one detached node whose children are all attached roots preserves the invariant -/
-theorem commitOne_inv {s : LState} {n : Nat} (hI : Inv Hc s) (hn : n < s.size)
+theorem commitOne_inv {X : Nat → (Nat × Str × Option Nat) → Prop} {Y : Nat → Prop} {s : LState} {n : Nat}
+    (hI : InvX Hc X Y s) (hn : n < s.size)
     (hfree : s.lookup (s.idOf n) = none)
     (hkids : ∀ c ∈ (s.obj n).kidList, Att s c ∧ (s.obj c).pid = none)
-    (hnd : (s.obj n).kidList.Nodup) : Inv Hc (commitOne Hc s n) := by
+    (hnd : (s.obj n).kidList.Nodup) (hXn : ∀ q e, X q e → e.1 ≠ n) : InvX Hc X Y (commitOne Hc s n) := by
   have hnatt : ¬ Att s n := by unfold Att; rw [hfree]; simp
   have hnk : n ∉ (s.obj n).kidList := fun h => hnatt (hkids n h).1
   have hpidn : (s.obj n).pid = none := by
@@ -199,7 +200,7 @@ theorem commitOne_inv {s : LState} {n : Nat} (hI : Inv Hc s) (hn : n < s.size)
     intro x hx
     rw [hobj x]; simp only [hx, if_false]
     split <;> rfl
-  refine ⟨?_, ?_, ?_, ?_, ?_, ?_⟩
+  refine ⟨?_, ?_, ?_, ?_, ?_, ?_, ?_, ?_⟩
   · -- regSound
     intro k v hk
     rw [hlk] at hk
@@ -208,7 +209,7 @@ theorem commitOne_inv {s : LState} {n : Nat} (hI : Inv Hc s) (hn : n < s.size)
     · next h => cases hk; exact ⟨hn, h⟩
     · exact hI.regSound k v hk
   · -- down
-    intro v hv e he
+    intro v hv e he hx
     rw [hkp] at he
     rcases (hatt v).mp hv with rfl | hvs
     · -- the new node
@@ -218,7 +219,7 @@ theorem commitOne_inv {s : LState} {n : Nat} (hI : Inv Hc s) (hn : n < s.size)
       rw [hobj e.1]; simp only [hne, if_false]
       rw [find_mem e he, hid]
       exact ⟨rfl, rfl, rfl⟩
-    · obtain ⟨hca, hcp, hcf, hci⟩ := hI.down v hvs e he
+    · obtain ⟨hca, hcp, hcf, hci⟩ := hI.down v hvs e he hx
       have hne : e.1 ≠ n := fun h => hnatt (h ▸ hca)
       have hnk' : e.1 ∉ (s.obj n).kidList := by
         intro h; rw [(hkids _ h).2] at hcp; cases hcp
@@ -256,7 +257,7 @@ theorem commitOne_inv {s : LState} {n : Nat} (hI : Inv Hc s) (hn : n < s.size)
           have : s.parent x = some p := by unfold LState.parent; rw [hk]; exact hps
           exact hI.up x hxs p this
   · -- cid
-    intro x hx
+    intro x hx hy
     rcases (hatt x).mp hx with rfl | hxs
     · rw [hobj x]; simp only [if_true]
       congr 1
@@ -266,7 +267,7 @@ theorem commitOne_inv {s : LState} {n : Nat} (hI : Inv Hc s) (hn : n < s.size)
       rw [hcid c hcn]
       exact ((reparent_same x _ s c).cid).symm
     · have hxn : x ≠ n := fun h => hnatt (h ▸ hxs)
-      rw [hcid x hxn, hI.cid x hxs]
+      rw [hcid x hxn, hI.cid x hxs hy]
       congr 1
       symm
       apply cidPre_congr
@@ -275,9 +276,11 @@ theorem commitOne_inv {s : LState} {n : Nat} (hI : Inv Hc s) (hn : n < s.size)
       · exact (hsame x).2
       · intro c hc
         obtain ⟨e, he, he1⟩ := (mem_kidList_iff _ _).mp hc
-        have hca := (hI.down x hxs e he).1
-        rw [he1] at hca
-        exact hcid c (fun h => hnatt (h ▸ hca))
+        by_cases hxe : X x e
+        · exact hcid c (he1 ▸ hXn x e hxe)
+        · have hca := (hI.down x hxs e he hxe).1
+          rw [he1] at hca
+          exact hcid c (fun h => hnatt (h ▸ hca))
   · -- noDangling
     intro x k hk
     by_cases hxn : x = n
@@ -303,6 +306,35 @@ theorem commitOne_inv {s : LState} {n : Nat} (hI : Inv Hc s) (hn : n < s.size)
     rw [commitOne_size] at hv ⊢
     rw [hkl] at hc
     exact hI.closed v hv c hc
+  · -- noSelf
+    intro x hx
+    unfold LState.parent at hx
+    by_cases hxn : x = n
+    · subst hxn; rw [hobj x] at hx; simp [hpidn] at hx
+    · by_cases hxk : x ∈ (s.obj n).kidList
+      · obtain ⟨e, he, he1⟩ := (mem_kidList_iff _ _).mp hxk
+        subst he1
+        rw [hobj e.1] at hx
+        simp only [hxn, if_false] at hx
+        rw [find_mem e he] at hx
+        simp only at hx
+        rw [hlk] at hx
+        simp only [if_true] at hx
+        exact hxn (Option.some.inj hx).symm
+      · rw [old_obj x hxn hxk] at hx
+        apply hI.noSelf x
+        unfold LState.parent
+        cases hk : (s.obj x).pid with
+        | none => rw [hk] at hx; cases hx
+        | some k =>
+          rw [hk] at hx; simp only at hx ⊢
+          rw [hlk] at hx
+          split at hx
+          · exact absurd (Option.some.inj hx).symm hxn
+          · exact hx
+  · -- wf
+    intro v
+    unfold LObj.wf; rw [(hsame v).2]; exact hI.wf v
 
 end
 
@@ -486,7 +518,7 @@ theorem planKids_facts (s : LState) (rec : Nat → Plan → Except Err (Plan × 
             · exact hrr.ksOk x hx
 
 theorem attachPlan_facts (s : LState) : ∀ (fuel u : Nat) (pl pl' : Plan),
-    attachPlan s fuel u pl = .ok (pl', none) → ∃ seg, SegFacts s pl pl' seg ∧ u ∈ seg := by
+    attachPlan s fuel u pl = .ok (pl', none) → ∃ seg, SegFacts s pl pl' seg ∧ u ∈ seg ∧ seg.getLast? = some u := by
   intro fuel
   induction fuel with
   | zero => intro u pl pl' h; simp [attachPlan] at h
@@ -516,11 +548,12 @@ theorem attachPlan_facts (s : LState) : ∀ (fuel u : Nat) (pl pl' : Plan),
         | some col => simp at h
         | none =>
           simp only [Except.ok.injEq, Prod.mk.injEq, and_true] at h
-          obtain ⟨segk, hk⟩ := planKids_facts s (attachPlan s fuel) u (fun c pl pl' hc => ih c pl pl' hc) _ _ _ hr
+          obtain ⟨segk, hk⟩ := planKids_facts s (attachPlan s fuel) u
+            (fun c pl pl' hc => by obtain ⟨sg, a, b, _⟩ := ih c pl pl' hc; exact ⟨sg, a, b⟩) _ _ _ hr
           have hkeys' : pl'.keys = pl1.keys := by subst h; rfl
           have hseen' : pl'.seenKids = pl1.seenKids := by subst h; rfl
           have horder' : pl'.order = pl1.order ++ [u] := by subst h; rfl
-          refine ⟨segk ++ [u], ⟨?_, ?_, ?_, ?_, ?_, ?_, ?_⟩, by simp⟩
+          refine ⟨segk ++ [u], ⟨?_, ?_, ?_, ?_, ?_, ?_, ?_⟩, by simp, by simp⟩
           · rw [horder', hk.order, ho0, List.append_assoc]
           · rw [hkeys']
             refine hk.keys.trans ?_
@@ -591,19 +624,22 @@ theorem commitOne_pid (s : LState) (n x : Nat) (hx : x ∉ (s.obj n).kidList) :
   · rw [h]
 
 /-- the state reached after committing a prefix `done` of the plan, relative to the start `s` -/
-structure Committed (s t : LState) (done : List Nat) : Prop where
-  inv : Inv Hc t
+structure Committed (X : Nat → (Nat × Str × Option Nat) → Prop) (Y : Nat → Prop) (s t : LState) (done : List Nat) :
+    Prop where
+  inv : InvX Hc X Y t
   size : t.size = s.size
   same : ∀ x, t.idOf x = s.idOf x ∧ (t.obj x).fields = (s.obj x).fields
   regNew : ∀ v ∈ done, t.lookup (s.idOf v) = some v
   regOld : ∀ k, k ∉ done.map s.idOf → t.lookup k = s.lookup k
   pid : ∀ x, x ∉ kidsOf s done → (t.obj x).pid = (s.obj x).pid
 
-theorem commit_prefix {s : LState} (hI : Inv Hc s) (seg : List Nat)
+theorem commit_prefix {X : Nat → (Nat × Str × Option Nat) → Prop} {Y : Nat → Prop} {s : LState}
+    (hI : InvX Hc X Y s) (seg : List Nat)
     (hlt : ∀ n ∈ seg, n < s.size) (hfree : ∀ n ∈ seg, s.lookup (s.idOf n) = none)
-    (hids : (seg.map s.idOf).Nodup) (hkids : (kidsOf s seg).Nodup) (hord : OrderOk s [] seg) :
-    ∀ (todo done : List Nat), seg = done ++ todo → Committed Hc s (done.foldl (commitOne Hc) s) done →
-      Committed Hc s (seg.foldl (commitOne Hc) s) seg := by
+    (hids : (seg.map s.idOf).Nodup) (hkids : (kidsOf s seg).Nodup) (hord : OrderOk s [] seg)
+    (hXseg : ∀ q e, X q e → e.1 ∉ seg) :
+    ∀ (todo done : List Nat), seg = done ++ todo → Committed Hc X Y s (done.foldl (commitOne Hc) s) done →
+      Committed Hc X Y s (seg.foldl (commitOne Hc) s) seg := by
   intro todo
   induction todo with
   | nil => intro done hseg hC; simp at hseg; subst hseg; exact hC
@@ -670,7 +706,7 @@ theorem commit_prefix {s : LState} (hI : Inv Hc s) (seg : List Nat)
           rw [h.2] at this
           rw [← this] at hk; cases hk
     have hInv := commitOne_inv Hc hC.inv (by rw [hC.size]; exact hlt n hnseg) hfree_t hkids_t
-      (by rw [hkl]; exact hkn)
+      (by rw [hkl]; exact hkn) (fun q e hx h => hXseg q e hx (h ▸ hnseg))
     refine ⟨hInv, by rw [commitOne_size, hC.size], ?_, ?_, ?_, ?_⟩
     · intro x
       have h1 := commitOne_same Hc t n x
@@ -776,8 +812,11 @@ theorem attachPlan_lt (s : LState) (hclosed : ∀ v, v < s.size → ∀ c ∈ (s
 /-! ### `_attach` -/
 
 /-- `_attach` that succeeds preserves the invariant (and attaches the node) -/
-theorem attach_inv (Hc : Str → Str) {s s' : LState} {u fuel : Nat} (hI : Inv Hc s) (hu : u < s.size)
-    (h : attach Hc fuel s u = (s', .ok ())) : Inv Hc s' ∧ Att s' u ∧ s'.size = s.size := by
+theorem attach_invX (Hc : Str → Str) {X : Nat → (Nat × Str × Option Nat) → Prop} {Y : Nat → Prop}
+    {s s' : LState} {u fuel : Nat} (hI : InvX Hc X Y s) (hu : u < s.size)
+    (hXu : ∀ q e, X q e → e.1 ≠ u ∧ s.idOf e.1 = s.idOf u)
+    (h : attach Hc fuel s u = (s', .ok ())) :
+    InvX Hc X Y s' ∧ Att s' u ∧ s'.size = s.size ∧ Grows s s' ∧ (s'.obj u).pid = (s.obj u).pid := by
   unfold attach at h
   cases hp : attachPlan s fuel u {} with
   | error e => rw [hp] at h; simp at h
@@ -788,7 +827,7 @@ theorem attach_inv (Hc : Str → Str) {s s' : LState} {u fuel : Nat} (hI : Inv H
     | some cc => simp at h
     | none =>
       simp only [Prod.mk.injEq, and_true] at h
-      obtain ⟨seg, hF, huseg⟩ := attachPlan_facts s fuel u {} pl hp
+      obtain ⟨seg, hF, huseg, hlast⟩ := attachPlan_facts s fuel u {} pl hp
       have hseg : pl.order = seg := by have := hF.order; simpa using this
       have hlt := attachPlan_lt s hI.closed fuel u {} pl none hp hu (by intro n hn; cases hn)
       rw [hseg] at hlt h
@@ -800,10 +839,46 @@ theorem attach_inv (Hc : Str → Str) {s s' : LState} {u fuel : Nat} (hI : Inv H
         have := hF.seenNodup (by simp [Plan.seenKids])
         have hperm : pl.seenKids.Perm (kidsOf s seg) := by simpa [Plan.seenKids] using hF.seen
         exact hperm.nodup_iff.mp this
-      have hC := commit_prefix Hc hI seg hlt hF.free hids hkids hF.orderOk seg [] (by simp)
+      have hXseg : ∀ q e, X q e → e.1 ∉ seg := by
+        intro q e hx hm
+        obtain ⟨hne, hid⟩ := hXu q e hx
+        exact hne (eq_of_nodup_map s.idOf seg hids e.1 hm u huseg hid)
+      have hC := commit_prefix Hc hI seg hlt hF.free hids hkids hF.orderOk hXseg seg [] (by simp)
         ⟨hI, rfl, fun _ => ⟨rfl, rfl⟩, (fun v hv => by cases hv), fun _ _ => rfl, fun _ _ => rfl⟩
       rw [← h]
-      exact ⟨hC.inv, by unfold Att; rw [(hC.same u).1]; exact hC.regNew u huseg, hC.size⟩
+      refine ⟨hC.inv, by unfold Att; rw [(hC.same u).1]; exact hC.regNew u huseg, hC.size,
+        ⟨Nat.le_of_eq hC.size.symm, fun x _ => hC.same x, ?_⟩, ?_⟩
+      rotate_left
+      · -- the attached node itself is nobody's child among the planned nodes: it comes last
+        apply hC.pid u
+        intro hmem
+        obtain ⟨m, hm, hum⟩ := List.mem_flatMap.mp hmem
+        obtain ⟨l1, l2, hdec⟩ := List.append_of_mem hm
+        have hseg_nd : seg.Nodup := by
+          exact nodup_of_nodup_map s.idOf seg hids
+        rcases OrderOk.flat seg hF.orderOk l1 m l2 hdec u hum with h0 | h0 | h0
+        · cases h0
+        · have hu2 : u ∈ m :: l2 := by
+            rw [hdec, List.getLast?_append] at hlast
+            cases hh : (m :: l2).getLast? with
+            | none => simp at hh
+            | some x => rw [hh] at hlast; simp at hlast; subst hlast; exact List.mem_of_getLast? hh
+          rw [hdec] at hseg_nd
+          exact (List.nodup_append.mp hseg_nd).2.2 u h0 u hu2 rfl
+        · have := hF.free u huseg
+          have h1 := h0.1
+          unfold Att at h1; rw [this] at h1; cases h1
+      intro k v hk
+      rw [hC.regOld k ?_]; exact hk
+      intro hm
+      obtain ⟨w, hw, hwk⟩ := List.mem_map.mp hm
+      have := hF.free w hw
+      rw [hwk, hk] at this; cases this
+
+theorem attach_inv (Hc : Str → Str) {s s' : LState} {u fuel : Nat} (hI : Inv Hc s) (hu : u < s.size)
+    (h : attach Hc fuel s u = (s', .ok ())) : Inv Hc s' ∧ Att s' u ∧ s'.size = s.size := by
+  obtain ⟨a, b, c, _, _⟩ := attach_invX Hc hI hu (fun _ _ hx => hx.elim) h
+  exact ⟨a, b, c⟩
 
 /-- a rejected `_attach` changes nothing at all (C19) -/
 theorem attach_fail_frame (Hc : Str → Str) (s : LState) (u fuel : Nat) (e : Err)
